@@ -6,9 +6,14 @@ default_factory, skip value / tuple / predicate, skip_exc), Call, Invoke (consta
 star), Ref (recursive)}, generated type-directed against the target by evaluating the reference on
 the prefix; every probe position yields SKIP, STOP or an error with small probability.
 
+Mode wrappers (Fill / Auto) appear as specs at every position, and - constructed - directly as a step of a
+tuple / Pipe / Fill(Pipe(...)) with a result of SKIP (mostly), STOP or a value, followed by steps whose reading depends
+on the mode (string path, dict of paths, list, nested chain; in a fill-mode Pipe: a string that would be a path).  The
+result of such a step is a result like any other; what follows is read in the mode of the chain (ref_chain, ref_fill).
+
 Oracle: refauto() - a direct recursive interpreter of the recipe (no scopes, no modes) that returns
 the value and the expected probe call log; plus metamorphic checks (tuple composition,
-Pipe == tuple, Spec(x) == x).
+Pipe == tuple, Spec(x) == x, a chain without a step whose result is SKIP gives the same result).
 """
 import collections
 
@@ -18,17 +23,18 @@ from hypothesis import strategies as st
 
 import glom
 from glom import (T, Spec, Val, Coalesce, Call, Invoke, Ref, Pipe, SKIP, STOP, GlomError, PathAccessError,
-                  CoalesceError, Path)
+                  CoalesceError, Path, Fill, Auto)
 
 from .. import fuzzrun
-from ..runner import Sub, Mismatch
+from ..runner import Sub, Mismatch, HarnessBug
 from .. import runner as runner_mod
 from .. import targets as tg
 
 PROPERTY = 'C03'
 RULE = ('spec trees of depth <= 4 / width <= 3 over the auto-mode constructs, generated against the value each sub-spec will '
         'receive (reference evaluation of the prefix) so that most sub-specs succeed; probes produce SKIP / STOP / errors at '
-        'every position of dicts, lists, tuples, Pipes and Coalesce alternatives. '
+        'every position of dicts, lists, tuples, Pipes and Coalesce alternatives; Fill / Auto wrappers as specs, constructed '
+        'as direct chain steps that yield SKIP / STOP / a value before mode-sensitive steps. '
         'Non-trivial = depth >= 2 with >= 2 construct kinds, or a SKIP/STOP occurred, or Coalesce passed over >= 1 alternative.')
 ASSUMPTIONS = [
     'reference interpreter refauto() in this module; glom is only used for sentinels and exception classes',
@@ -149,6 +155,93 @@ def falsy_none(v):
     return v is None or v == ''
 
 
+def lit(x):
+    """a literal recipe as an object; the two sentinels are spelled ['skip'] / ['stop']"""
+    if x == ['skip']:
+        return SKIP
+    if x == ['stop']:
+        return STOP
+    return tg.build(x).obj
+
+
+def note(env, label):
+    """class labels that only the reference evaluation can know (check() seeds env with a set under '$labels')"""
+    env.get('$labels', set()).add(label)
+
+
+# steps whose reading depends on the mode: a string is a path in auto mode and a literal in fill mode, a tuple is a
+# chain or a template, a list maps over the target or is a template, a dict's string values are paths or literals
+SENSITIVE = ('path', 'dict', 'list', 'tuple', 'flit', 'fdict', 'ftuple')
+
+
+def ref_chain(steps, target, log, env, ev, mode):
+    """'a tuple or Pipe feeds each step's result to the next'; 'a sub-result of SKIP omits that step and STOP ends
+    the chain'.  Every step is read by ev, the reading of the chain itself: what a step did to get its result
+    (such as switching the mode for the spec it wraps) is not the next step's business."""
+    res = target
+    pending = None
+    for n, sub in enumerate(steps):
+        if pending is not None:
+            note(env, 'modestep:%s:%s-then-%s' % (mode, pending, 'sensitive' if sub[0] in SENSITIVE else 'other'))
+            pending = None
+        nxt = ev(sub, res, log, env)
+        if sub[0] == 'mode':
+            pending = 'skip' if nxt is SKIP else 'stop' if nxt is STOP else 'value'
+            if nxt is STOP and n + 1 < len(steps):
+                note(env, 'modestep:%s:stop-then-more' % mode)
+        if nxt is SKIP:
+            continue
+        if nxt is STOP:
+            break
+        res = nxt
+    return res
+
+
+def ref_coalesce(r, target, log, env, ev):
+    opts = r[2]
+    exc = SKIP_EXC[opts.get('skip_exc', 'GlomError')]
+    sf = skip_func(opts.get('skip'))
+    for sub in r[1]:
+        try:
+            v = ev(sub, target, log, env)
+        except RefErr as e:
+            if exc and issubclass(e.cls, exc):
+                continue                       # skipped: try the next alternative
+            raise
+        if sf(v):
+            continue
+        return v                               # first non-skipped success wins; later ones never run
+    if 'default' in opts:
+        d = opts['default']
+        return target if d == ['T'] else lit(d)
+    if opts.get('default_factory'):
+        return ['made']
+    raise RefErr(CoalesceError, 'no alternative')
+
+
+def ref_fill(r, target, log, env):
+    """the reading of FILL mode as far as this module generates it (docs/modes.rst, Fill docstring): dicts and tuples
+    are templates, callables are called with the target, other plain objects (strings, numbers) stand for themselves;
+    'modes do not change the behavior of T, or many other core specifiers'; 'once set, the mode remains in place
+    until it is overridden by another mode'."""
+    kind = r[0]
+    if kind == 'flit':
+        return tg.build(r[1]).obj
+    if kind in ('T', 'val', 'probe'):
+        return refauto(r, target, log, env)
+    if kind == 'fdict':
+        return dict((k, ref_fill(sub, target, log, env)) for k, sub in r[1])
+    if kind == 'ftuple':
+        return tuple(ref_fill(sub, target, log, env) for sub in r[1])
+    if kind == 'coalesce':
+        return ref_coalesce(r, target, log, env, ref_fill)
+    if kind == 'pipe':
+        return ref_chain(r[1], target, log, env, ref_fill, 'fill')
+    if kind == 'mode':
+        return (refauto if r[1] == 'auto' else ref_fill)(r[2], target, log, env)
+    raise HarnessBug('no fill-mode reading defined for %r' % (r,))
+
+
 def refauto(r, target, log, env):
     kind = r[0]
     if kind == 'path':
@@ -181,15 +274,7 @@ def refauto(r, target, log, env):
             out.append(v)
         return out
     if kind in ('tuple', 'pipe'):
-        res = target
-        for sub in r[1]:
-            nxt = refauto(sub, res, log, env)
-            if nxt is SKIP:
-                continue
-            if nxt is STOP:
-                break
-            res = nxt
-        return res
+        return ref_chain(r[1], target, log, env, refauto, 'auto')
     if kind == 'probe':
         log.append((r[1], repr(target)))
         try:
@@ -201,29 +286,14 @@ def refauto(r, target, log, env):
         except TypeError:
             raise RefErr(TypeError, 'probe len')
     if kind == 'val':
-        return tg.build(r[1]).obj
+        return lit(r[1])
     if kind == 'spec':
         return refauto(r[1], target, log, env)
+    if kind == 'mode':
+        # a mode wrapper is a spec like any other: its result is the result of the wrapped spec, read in that mode
+        return (refauto if r[1] == 'auto' else ref_fill)(r[2], target, log, env)
     if kind == 'coalesce':
-        opts = r[2]
-        exc = SKIP_EXC[opts.get('skip_exc', 'GlomError')]
-        sf = skip_func(opts.get('skip'))
-        for sub in r[1]:
-            try:
-                v = refauto(sub, target, log, env)
-            except RefErr as e:
-                if exc and issubclass(e.cls, exc):
-                    continue                       # skipped: try the next alternative
-                raise
-            if sf(v):
-                continue
-            return v                               # first non-skipped success wins; later ones never run
-        if 'default' in opts:
-            d = opts['default']
-            return target if d == ['T'] else tg.build(d).obj
-        if opts.get('default_factory'):
-            return ['made']
-        raise RefErr(CoalesceError, 'no alternative')
+        return ref_coalesce(r, target, log, env, refauto)
     if kind == 'call':
         args = [ref_arg(a, target) for a in r[2]]
         kwargs = dict((k, ref_arg(a, target)) for k, a in r[3])
@@ -310,14 +380,22 @@ def build(r, log):
     if kind == 'probe':
         return Probe(r[1], r[2], log)
     if kind == 'val':
-        return Val(tg.build(r[1]).obj)
+        return Val(lit(r[1]))
     if kind == 'spec':
         return Spec(build(r[1], log))
+    if kind == 'mode':
+        return (Auto if r[1] == 'auto' else Fill)(build(r[2], log))
+    if kind == 'flit':
+        return tg.build(r[1]).obj
+    if kind == 'fdict':
+        return dict((k, build(sub, log)) for k, sub in r[1])
+    if kind == 'ftuple':
+        return tuple(build(sub, log) for sub in r[1])
     if kind == 'coalesce':
         opts = r[2]
         kw = {}
         if 'default' in opts:
-            kw['default'] = T if opts['default'] == ['T'] else tg.build(opts['default']).obj
+            kw['default'] = T if opts['default'] == ['T'] else lit(opts['default'])
         if opts.get('default_factory'):
             kw['default_factory'] = lambda: ['made']
         sk = opts.get('skip')
@@ -423,8 +501,12 @@ class Gen(object):
             return ['T', []]
         if k == 9:
             return self.probe(d(st.sampled_from([['skip'], ['stop'], ['none']])))
-        if k == 11 and d(st.booleans()):
-            return self.failing()
+        if k == 11:
+            if d(st.booleans()):
+                return self.failing()
+            # a mode wrapper as a spec, at whatever position this leaf ends up (dict value, list item spec, chain step,
+            # Coalesce alternative, Invoke argument)
+            return self.mode_step(value, 0, d(st.sampled_from(['value', 'value', 'skip', 'stop'])), 'auto')
         if k == 10:
             return ['call', 'collect', [d(st.sampled_from([['T', []], ['lit', ['i', 1]], ['lit', ['s', 'x']]]))
                                         for _ in range(d(st.integers(0, 2)))],
@@ -555,6 +637,169 @@ class Gen(object):
                                              [['k', 'kids'], ['tuple', [['path', 'kids'], ['list', ['refuse', 'node']]]]]], 'dict']]
         return self.leaf(value)
 
+    # ---- mode wrappers (Fill / Auto) used as specs.  What they wrap is read in their mode; their result is a result like
+    # any other: SKIP omits the entry / step, STOP ends the list / chain, a value is fed to the next step -- and what
+    # comes next is read in the mode of the place where it stands.
+
+    def strpath(self, value):
+        """a dotted path valid for value, in the STRING spelling (the spelling that means something else in fill mode:
+        there a string stands for itself), or None"""
+        d = self.draw
+        segs, cur = [], value
+        for _ in range(d(st.sampled_from([1, 1, 2]))):
+            if isinstance(cur, dict):
+                keys = sorted(k for k in cur if isinstance(k, str) and k and '.' not in k)
+                if not keys:
+                    break
+                k = d(st.sampled_from(keys))
+                segs.append(k)
+                cur = cur[k]
+            elif isinstance(cur, (list, tuple)) and len(cur):
+                i = d(st.sampled_from(range(len(cur))))
+                segs.append(str(i))
+                cur = cur[i]
+            elif isinstance(cur, tg.Obj) and cur.__dict__:
+                k = d(st.sampled_from(sorted(cur.__dict__)))
+                segs.append(k)
+                cur = getattr(cur, k)
+            else:
+                break
+        return '.'.join(segs) if segs else None
+
+    def taccess(self, value):
+        """a T expression valid for value (T reads the same in every mode); T itself where nothing can be accessed"""
+        d = self.draw
+        if isinstance(value, dict):
+            keys = sorted(k for k in value if isinstance(k, str))
+            if keys:
+                return ['T', [['[', d(st.sampled_from(keys))]]]
+        if isinstance(value, (list, tuple)) and len(value):
+            return ['T', [['[', d(st.sampled_from(range(len(value))))]]]
+        if isinstance(value, tg.Obj) and value.__dict__:
+            return ['T', [['.', d(st.sampled_from(sorted(value.__dict__)))]]]
+        return ['T', []]
+
+    def sentinel_spec(self, s, mode):
+        """a spec whose result, read in the given mode, is the sentinel s ('skip' / 'stop')"""
+        d = self.draw
+        k = d(st.sampled_from(range(4)))
+        if k == 0:
+            return self.probe([s])
+        if k == 1:
+            return ['val', [s]]
+        if k == 2:
+            # an optional part: every alternative fails with a GlomError, the default is the sentinel
+            fails = [['T', [['[', 'nope']]], self.probe(['glomerror'])]
+            if mode == 'auto':
+                fails += [['path', 'nope'], ['path', 'a.nope.x']]        # (in fill mode these would be literals)
+            return ['coalesce', [d(st.sampled_from(fails)) for _ in range(d(st.sampled_from([1, 1, 2])))], {'default': [s]}]
+        m = d(st.sampled_from(['auto', 'fill']))
+        return ['mode', m, self.sentinel_spec(s, m)]
+
+    def fill_value(self, value, depth):
+        """a spec for fill mode: templates, T, literals, callables"""
+        d = self.draw
+        k = d(st.sampled_from(range(9)))
+        if k == 0:
+            return self.taccess(value)
+        if k == 1:
+            return ['val', d(st.sampled_from(LITS))]
+        if k == 2:
+            p = self.strpath(value)
+            return ['flit', d(st.sampled_from([['s', 'lit'], ['i', 7], ['s', p or 'a.b']]))]
+        if k == 3:
+            return self.probe(d(st.sampled_from([['id'], ['wrap']])))
+        if k == 4:
+            return ['mode', 'auto', self.spec(value, depth - 1)]
+        if k == 5:
+            p = self.strpath(value)
+            return ['coalesce', [d(st.sampled_from([['T', [['[', 'nope']]], self.probe(['glomerror']), ['flit', ['s', p or 'a']],
+                                                    self.taccess(value)])) for _ in range(d(st.sampled_from([1, 2])))],
+                    {'default': d(st.sampled_from(LITS + [['T']]))}]
+        entries = []
+        for key in d(st.lists(st.sampled_from(['a', 'b', 'x']), min_size=1, max_size=3, unique=True)):
+            kk = d(st.sampled_from(range(4)))
+            p = self.strpath(value)
+            entries.append([key, self.taccess(value) if kk <= 1 else ['flit', ['s', p or 'lit']] if kk == 2
+                            else ['val', d(st.sampled_from(LITS))]])
+        if k <= 7:
+            return ['fdict', entries]
+        return ['ftuple', [e[1] for e in entries]]
+
+    def mode_step(self, value, depth, want, ctx):
+        """a mode wrapper used as a spec at a place read in mode ctx; want ('skip' / 'stop' / 'value') steers its result"""
+        d = self.draw
+        # the wrapper that switches away from the mode in force is the one that matters most
+        m = d(st.sampled_from(['fill', 'fill', 'auto'] if ctx == 'auto' else ['auto', 'auto', 'fill']))
+        if want in ('skip', 'stop'):
+            return ['mode', m, self.sentinel_spec(want, m)]
+        if m == 'auto':
+            return ['mode', 'auto', self.spec(value, depth - 1)]
+        return ['mode', 'fill', self.fill_value(value, depth)]
+
+    def sensitive(self, value, depth):
+        """an auto-mode step that would mean something else in another mode: a string path, a dict of string paths,
+        a list, a nested chain"""
+        d = self.draw
+        k = d(st.sampled_from(range(8)))
+        p = self.strpath(value)
+        if k <= 3 and p is not None:
+            return ['path', p]
+        if k <= 5:
+            entries = []
+            for key in d(st.lists(st.sampled_from(['x', 'y', 'z']), min_size=1, max_size=2, unique=True)):
+                q = self.strpath(value)
+                entries.append([['k', key], ['path', q] if q is not None else self.leaf(value)])
+            return ['dict', entries, d(st.sampled_from(['dict', 'odict']))]
+        if k == 6 and isinstance(value, (list, tuple)):
+            return ['list', self.leaf(value[0] if len(value) else None)]
+        return ['tuple', [self.probe(['wrap']), self.probe(d(st.sampled_from([['wrap'], ['id'], ['len']])))]]
+
+    def fill_sensitive(self, value):
+        """a fill-mode step that would mean something else in auto mode: a string that is a valid path there,
+        a tuple template"""
+        d = self.draw
+        p = self.strpath(value)
+        if d(st.sampled_from(range(4))) or p is None:
+            return ['flit', ['s', p or 'a']]
+        return ['ftuple', [self.taccess(value), ['flit', ['s', p]]]]
+
+    def modechain(self, value, depth):
+        """constructed class: a chain with a mode wrapper DIRECTLY as a step - mostly one whose result is SKIP -
+        followed by steps whose meaning depends on the mode; in an auto-mode place (tuple / Pipe) or as Fill(Pipe(...))"""
+        d = self.draw
+        ctx = d(st.sampled_from(['auto', 'auto', 'fill']))
+        ev = refauto if ctx == 'auto' else ref_fill
+        steps = []
+        state = {'cur': value, 'live': True}
+
+        def push(s):
+            steps.append(s)
+            if not state['live']:
+                return
+            try:
+                nxt = ev(s, state['cur'], [], {})
+            except HarnessBug:
+                raise
+            except Exception:
+                state['live'] = False
+                return
+            if nxt is STOP:
+                state['live'] = False
+            elif nxt is not SKIP:
+                state['cur'] = nxt
+
+        if d(st.sampled_from(range(3))) == 0:
+            push((self.access(state['cur']) if ctx == 'auto' else self.taccess(state['cur'])) or self.probe(['id']))
+        for _ in range(d(st.sampled_from([1, 1, 1, 2]))):
+            push(self.mode_step(state['cur'], depth, d(st.sampled_from(['skip'] * 5 + ['value'] * 3 + ['stop'])), ctx))
+        push(self.sensitive(state['cur'], depth) if ctx == 'auto' else self.fill_sensitive(state['cur']))
+        if d(st.sampled_from(range(3))) == 0:
+            push(self.spec(state['cur'], depth - 1) if ctx == 'auto' else self.fill_value(state['cur'], depth))
+        if ctx == 'fill':
+            return ['mode', 'fill', ['pipe', steps]]
+        return [d(st.sampled_from(['tuple', 'tuple', 'pipe'])), steps]
+
     def nonsentinel(self, value, depth):
         s = self.spec(value, depth)
         # Invoke.specs arguments are passed on as they are: keep SKIP/STOP-producing probes out
@@ -619,7 +864,8 @@ def gen_tree_target(draw, dd=2):
 
 
 def gen(draw):
-    if draw(st.sampled_from(range(12))) == 0:
+    form0 = draw(st.sampled_from(range(12)))
+    if form0 == 0:
         # Ref recursion over a tree-shaped target, alone / as a chain step / as a dict value
         form = draw(st.sampled_from(['plain', 'chain', 'dictval', 'redefined']))
         if form == 'redefined':
@@ -630,6 +876,20 @@ def gen(draw):
     trec = gen_target(draw)
     value = tg.build(trec).obj
     g = Gen(draw)
+    if form0 == 1:
+        # a mode wrapper directly as a chain step; alone / as a dict value / as a Coalesce alternative / in a Spec /
+        # as a step of another chain
+        chain = g.modechain(value, 2)
+        nest = draw(st.sampled_from(['plain', 'plain', 'plain', 'dictval', 'alt', 'spec', 'step']))
+        if nest == 'dictval':
+            chain = ['dict', [[['k', 'r'], chain], [['k', 'n'], g.sensitive(value, 1)]], 'dict']
+        elif nest == 'alt':
+            chain = ['coalesce', [g.failing(), chain], {}]
+        elif nest == 'spec':
+            chain = ['spec', chain]
+        elif nest == 'step':
+            chain = ['tuple', [['T', []], chain]]
+        return {'target': trec, 'spec': chain}
     return {'target': trec, 'spec': g.spec(value, draw(st.sampled_from([2, 3, 3, 4, 5] if runner_mod.thorough() else [2, 2, 3, 3, 4])))}
 
 
@@ -652,7 +912,8 @@ def kinds(r, acc=None):
 
 
 def depth(r):
-    if isinstance(r, list) and r and isinstance(r[0], str) and r[0] in ('dict', 'list', 'tuple', 'pipe', 'spec', 'coalesce', 'invoke', 'ref'):
+    if isinstance(r, list) and r and isinstance(r[0], str) and r[0] in ('dict', 'list', 'tuple', 'pipe', 'spec', 'coalesce', 'invoke', 'ref',
+                                                                        'mode', 'fdict', 'ftuple'):
         subs = []
         for x in r[1:]:
             subs.append(depth(x))
@@ -674,7 +935,29 @@ def deep_same(a, b):
     return a == b
 
 
-SPEC_KINDS = ('path', 'T', 'dict', 'list', 'tuple', 'pipe', 'probe', 'val', 'spec', 'coalesce', 'call', 'invoke', 'ref', 'refuse')
+SPEC_KINDS = ('path', 'T', 'dict', 'list', 'tuple', 'pipe', 'probe', 'val', 'spec', 'coalesce', 'call', 'invoke', 'ref', 'refuse',
+              'mode', 'flit', 'fdict', 'ftuple')
+
+
+def skipped_steps(r, target):
+    """for a chain at the top of the recipe - (a, b, ...), Pipe(a, b, ...) or Fill(Pipe(a, b, ...)) -: a function that
+    rebuilds the recipe around other steps, the steps, and the indices of those whose result is SKIP by the reference"""
+    if r[0] in ('tuple', 'pipe'):
+        steps, ev, rebuild = r[1], refauto, lambda ss: [r[0], ss]
+    elif r[0] == 'mode' and r[1] == 'fill' and r[2][0] == 'pipe':
+        steps, ev, rebuild = r[2][1], ref_fill, lambda ss: ['mode', 'fill', ['pipe', ss]]
+    else:
+        return None
+    res, idx = target, []
+    for n, sub in enumerate(steps):
+        nxt = ev(sub, res, [], {})          # (the whole chain succeeds by the reference: no step up to a STOP raises)
+        if nxt is SKIP:
+            idx.append(n)
+            continue
+        if nxt is STOP:
+            break
+        res = nxt
+    return rebuild, steps, idx
 
 
 def evaluate(target, spec):
@@ -688,10 +971,13 @@ def check(recipe, ctx):
     r = recipe['spec']
     rlog, glog = [], []
     rt = tg.build(recipe['target']).obj
+    env0 = {'$labels': set()}
     try:
-        exp = ('ok', refauto(r, rt, rlog, {}))
+        exp = ('ok', refauto(r, rt, rlog, env0))
     except RefErr as e:
         exp = ('err', e)
+    for l in sorted(env0['$labels']):
+        ctx.label(l)
     gt = tg.build(recipe['target']).obj
     snap = tg.snapshot(gt)
     spec = build(r, glog)
@@ -743,7 +1029,19 @@ def check(recipe, ctx):
                 raise Mismatch('wrapper-changes-result', '%s of %s: expected %r, got %r' % (name, where, expect2, got2))
             if log2 != rlog:
                 raise Mismatch('wrapper-changes-evaluation', '%s of %s: probe calls %r vs %r' % (name, where, log2, rlog))
-    # ---- metamorphic: glom(t, (a, b)) == glom(glom(t, a), b)
+    # ---- metamorphic: 'a sub-result of SKIP omits that step' -- the chain without that step gives the same result
+    sk = skipped_steps(r, rt) if exp[0] == 'ok' else None
+    if sk is not None:
+        rebuild, steps, idx = sk
+        for n in idx[:3]:
+            without = rebuild(steps[:n] + steps[n + 1:])
+            got3 = evaluate(tg.build(recipe['target']).obj, build(without, []))
+            if got3[0] != 'ok' or not deep_same(got3[1], got[1]):
+                raise Mismatch('skipped-step-not-omitted', '%s: step %d yields SKIP, but without it the chain gives %r instead of %r'
+                               % (where, n, got3[1], got[1]))
+            ctx.label('omission-checked')
+            if steps[n][0] == 'mode':
+                ctx.label('omission-checked:modestep')
     if r[0] in ('tuple', 'pipe') and len(r[1]) == 2 and exp[0] == 'ok':
         a, b = r[1]
         la = []
@@ -779,7 +1077,10 @@ def enum_vals(tier):
 SUBS = [
     Sub('auto', check, gen=gen, quick=5000, thorough=20000,
         floors={'exp-ok': 0.5, 'exp-err': 0.02, 'has-coalesce': 0.05, 'has-dict': 0.12, 'has-list': 0.08,
-                'has-invoke': 0.03, 'invoke-derived-later': 0.004, 'has-ref': 0.03, 'nested-chain-sentinel': 0.02, 'composition-checked': 0.01}),
+                'has-invoke': 0.03, 'invoke-derived-later': 0.004, 'has-ref': 0.03, 'nested-chain-sentinel': 0.02, 'composition-checked': 0.01,
+                # a mode wrapper (Fill / Auto) directly as a chain step, followed by a step whose reading depends on the mode
+                'has-mode': 0.05, 'modestep:auto:skip-then-sensitive': 0.015, 'modestep:fill:skip-then-sensitive': 0.005,
+                'modestep:auto:value-then-sensitive': 0.004, 'omission-checked:modestep': 0.02}),
     Sub('val-identity', check_val_identity, enum=enum_vals),
     fuzzrun.fuzz_sub('fuzz-auto', 'hyp:c03:auto', runs=30000, campaigns=4, replay_sub='auto'),
 ]
